@@ -161,6 +161,18 @@ def run(case, ctx):
         ctx.count("f:shape." + k)
         ctx.count("f:ndim.%d" % a.ndim)
         check_pair(ctx, a, b, k, r)
+        if i % 4 == 0:  # same array objects, new content (each call judged by the monitor against its own input)
+            a2 = a.copy()
+            assd(a2, b)
+            flat = a2.reshape(-1)
+            flat[int(r.integers(0, flat.size))] = 1
+            flat[int(r.integers(0, flat.size))] = 0
+            if a2.any():
+                assd(a2, b)
+                a2[...] = b
+                assd(a2, b)
+                ctx.count("evaluations", 3)
+                ctx.count("C07.inplace_rescored")
         # with label selection on non-binary arrays
         la, lb = a.astype(np.uint16) * 7, b.astype(np.uint16) * 300
         v1, v2 = assd(a, b), assd(la, lb, 7, [300, 5])
